@@ -9,7 +9,13 @@ import (
 	"strings"
 )
 
-const repoRoot = "/repo"
+// repoRoot: the tree the binaries were built from (VERIF_REPO points the checks at a scratch worktree).
+var repoRoot = func() string {
+	if r := os.Getenv("VERIF_REPO"); r != "" {
+		return r
+	}
+	return "/repo"
+}()
 
 var scenarioRe = regexp.MustCompile(`(?s)octosql\s+"((?:[^"\\]|\\.)*)"`)
 
